@@ -26,6 +26,7 @@ EXPLANATION = (
     "validator raises it as (len(data), announced total) only when len(data) is below the announced total and the header up to the "
     "length byte is present. Split points x delays x contents end-to-end are not decided."
     ' (R4, shared with C02.R6) every path of the receive callbacks reaches the reassembly test and the validator.'
+    ' (R5, shared with C05.R4) no timer of an earlier request is armed when a request ends, so the wait for the second fragment lasts the configured timeout.'
 )
 
 
